@@ -4846,8 +4846,18 @@ def _breakout_stacked_imports(source: str) -> str:
     replacements = {}
     additions = set()
 
+    source_lines = source.split("\n")
     for node in core.walk(root, ast.Import):
         if len(node.names) <= 1:
+            continue
+
+        # The new statements are whole lines: the import must be alone on its line,
+        # not e.g. the body of a one-line `if x: import a, b`.
+        if node.lineno != node.end_lineno:
+            continue
+        line = source_lines[node.lineno - 1].encode("utf-8")
+        rest = line[node.end_col_offset :].strip()
+        if line[: node.col_offset].strip() or (rest and not rest.startswith(b"#")):
             continue
 
         names = sorted(
